@@ -15,6 +15,8 @@ def run(ctx):
         fields = engine.gen_fields(rnd, rnd.randint(1, 4), fmt)
         table = engine.gen_table(rnd, fields, fmt, rnd.randint(0, 8), p_bad=rnd.choice([0.0, 0.15, 0.3]))
         fault = rnd.random() < 0.2
+        if fmt == "fixed" and sum(f["width"] for f in fields) < 2:
+            fault = False   # a one character tail would be a complete record of this CID, not a short one
         runs = []
         for api in ("c", "f"):
             for mode in ("yield", "continue", "raise"):
